@@ -63,6 +63,7 @@ def execute(ch, config):
     srv.status_variation = True
     srv.data_variation = True
     srv.order_variation = True
+    srv.cap_variation = True
     with ch.scope("store"):
         for i in range(nscripts):
             nm = gen.name(wl, "name").encode()
